@@ -11,6 +11,7 @@
 From BCL Require Import Model.Api Proofs.LineCalcProofs Proofs.LexerProofs Proofs.ParserInvProofs.
 Open Scope N_scope.
 From BCL Require Import Model.Compile Spec.Syntax Proofs.T2Expr Proofs.T2Proofs Proofs.Language.
+From BCL Require Import Proofs.ParserTotal.
 
 Theorem C17_error_iff_log : forall ts,
   hadError (parse_tokens ts) = true <-> log (parse_tokens ts) <> [].
@@ -94,6 +95,12 @@ Theorem C17_fuel : forall ts, eshape ts -> hadError (parse_tokens ts) = false ->
   oof (parse_tokens ts) = false /\ ppanic (parse_tokens ts) = false.
 Proof. first [exact T2Proofs.T2_accept_no_oof | apply T2Proofs.T2_accept_no_oof]. Qed.
 Print Assumptions C17_fuel.
+
+(* rejection is never the model giving up: no fuel exhaustion, no panic site, on any input *)
+Theorem C17_parser_total : forall ts, lex_shape ts ->
+  oof (parse_tokens ts) = false /\ ppanic (parse_tokens ts) = false.
+Proof. first [exact ParserTotal.parser_total | apply ParserTotal.parser_total]. Qed.
+Print Assumptions C17_parser_total.
 
 Example C17_example :
   pr_ok (parse_whole (bs "f") (bs "var x = 1 def b { y = x; z = (y = 2) } print x; bind b -> struct")) = true
